@@ -738,7 +738,7 @@ func checkPlatformOptionSwitch(c *Ctx, r *Report) {
 		return
 	}
 	var sw *switchInfo
-	for _, s := range stringSwitches(p, fd.Body) {
+	for _, s := range stringSwitchesDeep(p, fd, 2) {
 		if f := selField(p, s.Tag); f != nil && f.Name() == "Option" {
 			sw = s
 		}
@@ -806,15 +806,23 @@ func checkPlatformOptionSwitch(c *Ctx, r *Report) {
 		var produced []string
 		usesValue := false
 		ast.Inspect(cc, func(n ast.Node) bool {
-			as, ok := n.(*ast.AssignStmt)
-			if !ok || len(as.Lhs) != 1 || len(as.Rhs) != 1 {
-				return true
+			var call *ast.CallExpr
+			switch st := n.(type) {
+			case *ast.AssignStmt:
+				if len(st.Lhs) != 1 || len(st.Rhs) != 1 {
+					return true
+				}
+				if _, ok := ast.Unparen(st.Lhs[0]).(*ast.IndexExpr); !ok {
+					return true
+				}
+				call, _ = ast.Unparen(st.Rhs[0]).(*ast.CallExpr)
+			case *ast.ReturnStmt:
+				// the per-entry spelling: the clause returns the option instead of storing it into its slot
+				if len(st.Results) >= 1 {
+					call, _ = ast.Unparen(st.Results[0]).(*ast.CallExpr)
+				}
 			}
-			if _, ok := ast.Unparen(as.Lhs[0]).(*ast.IndexExpr); !ok {
-				return true
-			}
-			call, ok := ast.Unparen(as.Rhs[0]).(*ast.CallExpr)
-			if !ok {
+			if call == nil {
 				return true
 			}
 			var fobj types.Object
